@@ -109,6 +109,25 @@ def mt_target(c: str) -> bool:
     return R(names == [_want(p)])
 
 
+def mv_target_var(c: str) -> bool:
+    """the target part of a target-specific variable line (`<target>: CFLAGS := ...`, written by
+    the real Makefile._write_variable for steps with their own options): Make reads it with the
+    same rules as a rule target, so it must name the file the rule itself names
+    pre: len(c) == N and _comp_ok(c) and _in_scope(c, EXCL) and not c.endswith(' ') and not c.endswith('&')
+    pre: not _kf_make(c)
+    post: _
+    """
+    p = _mkpath(c)
+    out = MK.writer(StringIO())
+    MK._write_variable(out, Variable('CFLAGS'), ['-DX=1'], target=p)
+    text = out.stream.getvalue()
+    tail = ': CFLAGS := -DX=1' + chr(10)
+    if not text.endswith(tail):
+        return R(False)
+    names = rmake.rule_words(text[:-len(tail)], 'target', SRC)
+    return R(names == [_want(p)] and names == rmake.rule_words(_text(MK, p, MS.target), 'target', SRC))
+
+
 def md_prereq(c: str) -> bool:
     """Make prerequisite
     pre: len(c) == N and _comp_ok(c) and _in_scope(c, EXCL) and not _kf_make(c)
